@@ -8,7 +8,7 @@ from args_common import hx, argv_tok  # noqa
 SHORTS = 'abcdefgkmnpqrtuvwxyz'
 LONGS = ['input', 'input-file', 'inp', 'output', 'out', 'verbose', 'level', 'list', 'left', 'right', 'name',
          'number', 'num', 'include', 'index', 'mode']
-KINDS = ['b', 'i', 's', 'oi', 'vi', 'vs']
+KINDS = ['b', 'i', 's', 'oi', 'vi', 'vs', 'lc']
 WORDCH = 'abcXYZ019'
 
 
@@ -29,8 +29,12 @@ class Arg:
         self.req = []
         self.clear = self.sort = self.uniq = self.uniq_err = False
         self.init = None
+        self.mix = False
+        self.positional = False
 
     def keyspec(self, rng=None):
+        if self.positional:
+            return '-'
         if self.short and self.long:
             return '%s,%s' % (self.short, self.long)
         return self.short or self.long
@@ -67,10 +71,12 @@ class Arg:
             o.append('req=' + ';'.join(a.refspec for a in self.req))
         if self.init is not None:
             o.append('init=' + self.init)
+        if self.mix:
+            o.append('mix')
         return 'arg:%s:%s:%s' % (self.keyspec(), self.slot, '/'.join(o))
 
 
-def gen_config(rng, nargs, kinds=KINDS, features=True, prefix_family=True):
+def gen_config(rng, nargs, kinds=KINDS, features=True, prefix_family=True, positional=True):
     """a well-formed configuration: list of Arg + list of handler constraints (type, [Arg])"""
     shorts = list(SHORTS)
     rng.shuffle(shorts)
@@ -98,8 +104,12 @@ def gen_config(rng, nargs, kinds=KINDS, features=True, prefix_family=True):
         a.refspec = a.short if (a.short and (not a.long or rng.chance(1, 2))) else a.long
         if a.kind == 'b':
             a.init = '0'
+        if a.kind == 'lc' and features:
+            a.mix = rng.chance(1, 4)
+            if rng.chance(1, 3):
+                a.checks.append(rng.choice([('upper', rng.range(3, 9)), ('lower', rng.range(-3, 1)), ('range', rng.range(-2, 1), rng.range(4, 9))]))
         if features:
-            if a.kind in ('i', 'oi', 'vi') and rng.chance(1, 3):
+            if a.kind in ('i', 'oi', 'vi') and rng.chance(1, 3):  # (level counters get their checks above)
                 lo = rng.range(-5, 20)
                 which = rng.below(3)
                 if which == 0:
@@ -135,20 +145,35 @@ def gen_config(rng, nargs, kinds=KINDS, features=True, prefix_family=True):
             elif a.kind != 'b' and rng.chance(1, 8):
                 a.card = ('max', 2)
         args.append(a)
+    # a positional argument (key "-"): free words that belong to no multi-value argument
+    if positional and rng.chance(1, 3):
+        kd = rng.choice(['s', 'i'])
+        n = count.get(kd, 0)
+        if n < 4:
+            a = Arg()
+            a.kind = kd
+            a.slot = '%s%d' % (kd, n)
+            count[kd] = n + 1
+            a.positional = True
+            a.refspec = None
+            args.insert(rng.below(len(args) + 1), a)
     cons = []
     if features and len(args) >= 2:
         for a in args:
             if rng.chance(1, 6):
-                o = rng.choice([x for x in args if x is not a])
-                (a.excl if rng.chance(1, 2) else a.req).append(o)
+                others = [x for x in args if x is not a and not x.positional]
+                if others and not a.positional:
+                    o = rng.choice(others)
+                    (a.excl if rng.chance(1, 2) else a.req).append(o)
         if rng.chance(1, 4):
-            k = rng.range(2, min(3, len(args)))
-            sel = list(args)
-            rng.shuffle(sel)
-            cons.append((rng.choice(['all_of', 'any_of', 'one_of']), sel[:k]))
+            sel = [x for x in args if not x.positional]
+            if len(sel) >= 2:
+                k = rng.range(2, min(3, len(sel)))
+                rng.shuffle(sel)
+                cons.append((rng.choice(['all_of', 'any_of', 'one_of']), sel[:k]))
         # value constraints: differ over scalars of one type, disjoint over two vectors of one type
         for kd in ('i', 's'):
-            grp = [a for a in args if a.kind == kd]
+            grp = [a for a in args if a.kind == kd and not a.positional]
             if len(grp) >= 2 and rng.chance(1, 3):
                 rng.shuffle(grp)
                 cons.append(('differ', grp[:rng.range(2, min(3, len(grp)))]))
@@ -300,8 +325,52 @@ def gen_line(rng, args, cons, maxuses=6):
             rest_ = [a for a in ordered if a not in free]
             pos = min(pos, len(rest_))
             ordered = rest_[:pos] + free + rest_[pos:]
+    # the positional argument takes a bare word: legal at the very beginning or behind an argument that cannot
+    # take that word itself (not a multi-value argument, not an optional-value level counter)
+    posargs = [a for a in ordered if a.positional]
+    if posargs:
+        pa = posargs[0]
+        ordered.remove(pa)
+        slots_ok = [0] + [k + 1 for k, b in enumerate(ordered) if not b.multi and b.kind != 'lc']
+        ordered.insert(rng.choice(slots_ok), pa)
     for a in ordered:
-        if not a.is_value():
+        if a.kind == 'lc':
+            lo, hi = -50, 50
+            for c in a.checks:
+                if c[0] == 'lower':
+                    lo = max(lo, c[1])
+                elif c[0] == 'upper':
+                    hi = min(hi, c[1] - 1)
+                elif c[0] == 'range':
+                    lo, hi = max(lo, c[1]), min(hi, c[2] - 1)
+            once = any(a in grp for (t, grp) in cons if t in ('any_of', 'one_of'))
+            if lo <= 1 and rng.chance(2, 3):
+                kmax = max(1, min(3, hi))
+                if a.card:
+                    kmax = min(kmax, a.card[1])
+                k = 1 if once else rng.range(1, kmax)
+                if k > hi:
+                    return None
+                for _ in range(k):
+                    uses.append(Use(a))           # increments
+            else:
+                if lo > hi:
+                    return None
+                lo2 = max(lo, -9 if a.long else 0)      # a negative value needs the --key=value form
+                if lo2 > min(hi, 9):
+                    return None
+                uses.append(Use(a, [str(rng.range(lo2, min(hi, 9)))]))
+        elif a.positional:
+            v = None
+            for _ in range(20):
+                c = gen_value(rng, a)
+                if c and not c.startswith('-') and not c.startswith('+') and c not in ('(', ')', '!'):
+                    v = c
+                    break
+            if v is None:
+                return None
+            uses.append(Use(a, [v]))
+        elif not a.is_value():
             uses.append(Use(a))
         elif a.is_vec():
             lo, hi = 1, 4
@@ -400,18 +469,23 @@ def spell(rng, uses, args, abbr=True, stats=None):
     while i < len(uses):
         u = uses[i]
         a = u.arg
-        if not a.is_value():
+        if a.positional:
+            words.append(u.values[0])
+            note('positional')
+            i += 1
+            continue
+        if _flaglike(u):
             # a run of flags with short keys may be grouped behind one dash
             run = [u]
             j = i + 1
-            while j < len(uses) and not uses[j].arg.is_value() and uses[j].arg.short and a.short and rng.chance(3, 4):
+            while j < len(uses) and _flaglike(uses[j]) and uses[j].arg.short and a.short and rng.chance(3, 4):
                 run.append(uses[j])
                 j += 1
             if len(run) > 1:
                 # optionally end the group with a value-taking short key (glued or separate value)
                 grp = '-' + ''.join(x.arg.short for x in run)
-                if j < len(uses) and uses[j].arg.is_value() and uses[j].arg.short and not uses[j].arg.is_vec() \
-                        and rng.chance(1, 2):
+                if j < len(uses) and not _flaglike(uses[j]) and uses[j].arg.kind in ('i', 's', 'oi') \
+                        and uses[j].arg.short and not uses[j].arg.positional and rng.chance(1, 2):
                     v = uses[j].values[0]
                     if rng.chance(1, 2) and v != '':
                         words.append(grp + uses[j].arg.short + v)
@@ -460,6 +534,30 @@ def spell(rng, uses, args, abbr=True, stats=None):
     return words
 
 
+def spell_with_ddash(rng, uses, args, abbr=True, stats=None):
+    """like spell(); when the line ends with a multi-value argument that has at least two elements, the elements
+    after the first may be given as separate words behind "--" (then also with a leading dash)"""
+    if uses and uses[-1].arg.is_vec() and uses[-1].arg.multi and len(uses[-1].values) >= 2 and rng.chance(1, 2):
+        last = uses[-1]
+        head = Use(last.arg, last.values[:1])
+        tail = [v for v in last.values[1:]]
+        if all(v != '' for v in tail):
+            w = spell(rng, uses[:-1] + [head], args, abbr, stats)
+            if stats is not None:
+                stats['double-dash'] = stats.get('double-dash', 0) + 1
+            return w + ['--'] + tail
+    return spell(rng, uses, args, abbr, stats)
+
+
+def _plain(a):
+    return not a.positional and a.kind != 'lc'
+
+
+def _flaglike(u):
+    """a use spelled by its key alone: flags, and level counter increments"""
+    return (not u.arg.is_value()) or (u.arg.kind == 'lc' and not u.values)
+
+
 def _key_word(rng, a, args, abbr, note):
     forms = []
     if a.short:
@@ -481,7 +579,7 @@ def _value_words(rng, a, args, abbr, text, note):
     if a.short:
         if not dash and text != '':
             forms.append(('short-sep', ['-' + a.short, text]))
-        if text != '' and a.kind != 'xx':
+        if text != '' and a.kind != 'lc':      # optional value mode: no glued value
             forms.append(('short-glued', ['-' + a.short + text]))
     if a.long:
         names = [a.long] + (abbrevs(a, args) if abbr else [])
@@ -521,9 +619,13 @@ def expected_store(args, uses):
             out[a.slot] = '[' + ','.join(str(int(x)) for x in (a.init.split('~') if a.init else [])) + ']'
         elif a.kind == 'vs':
             out[a.slot] = '[' + ','.join('s' + x for x in (a.init.split('~') if a.init else [])) + ']'
+        elif a.kind == 'lc':
+            out[a.slot] = '0'
     for u in uses:
         a = u.arg
-        if a.kind == 'b':
+        if a.kind == 'lc':
+            out[a.slot] = str(int(u.values[0])) if u.values else str(int(out[a.slot]) + 1)
+        elif a.kind == 'b':
             out[a.slot] = '1'
         elif a.kind in ('i', 'oi'):
             out[a.slot] = str(int(u.values[0]))
@@ -551,7 +653,7 @@ def expected_store(args, uses):
 MUTATIONS = ['drop-mandatory', 'duplicate', 'unknown-short', 'unknown-long', 'bad-value', 'boundary-value',
              'missing-value-end', 'missing-value-mid', 'excluded-after', 'required-missing', 'break-handler-constraint',
              'too-many-elements', 'too-few-elements', 'ambiguous-abbrev', 'value-for-flag', 'lone-dash',
-             'break-value-constraint', 'break-value-constraint']
+             'break-value-constraint', 'break-value-constraint', 'level-mix']
 
 
 def mutate(rng, kind, args, cons, uses):
@@ -560,7 +662,8 @@ def mutate(rng, kind, args, cons, uses):
     uses = [Use(u.arg, list(u.values)) for u in uses]
     spell_ = lambda us: spell(rng, us, args, True)  # noqa
     if kind == 'drop-mandatory':
-        cand = [i for i, u in enumerate(uses) if u.arg.mand and not (u.arg.is_vec() and u.arg.init)]
+        cand = [i for i, u in enumerate(uses) if u.arg.mand and not (u.arg.is_vec() and u.arg.init)
+                and sum(1 for x in uses if x.arg is u.arg) == 1]
         if not cand:
             return None
         i = rng.choice(cand)
@@ -569,7 +672,8 @@ def mutate(rng, kind, args, cons, uses):
         del uses[i]
         return spell_(uses)
     if kind == 'duplicate':
-        cand = [i for i, u in enumerate(uses) if u.arg.is_value() and not u.arg.is_vec() and not u.arg.card]
+        cand = [i for i, u in enumerate(uses) if u.arg.is_value() and not u.arg.is_vec() and not u.arg.card
+                and _plain(u.arg)]
         if not cand:
             return None
         i = rng.choice(cand)
@@ -587,7 +691,8 @@ def mutate(rng, kind, args, cons, uses):
         # or the very end
         return [word] + w if rng.chance(1, 2) else w + [word]
     if kind in ('bad-value', 'boundary-value'):
-        cand = [i for i, u in enumerate(uses) if u.arg.is_value() and (u.arg.kind in ('i', 'oi', 'vi') or u.arg.checks)]
+        cand = [i for i, u in enumerate(uses) if u.arg.is_value() and (u.arg.kind in ('i', 'oi', 'vi') or u.arg.checks)
+                and _plain(u.arg)]
         if not cand:
             return None
         i = rng.choice(cand)
@@ -615,13 +720,13 @@ def mutate(rng, kind, args, cons, uses):
             return w
         return spell_(uses)
     if kind == 'missing-value-end':
-        cand = [a for a in args if a.is_value() and a not in [u.arg for u in uses]]
+        cand = [a for a in args if a.is_value() and _plain(a) and a not in [u.arg for u in uses]]
         if not cand:
             return None
         a = rng.choice(cand)
         return spell_(uses) + [('-' + a.short) if a.short else ('--' + a.long)]
     if kind == 'missing-value-mid':
-        cand = [a for a in args if a.is_value() and a not in [u.arg for u in uses]]
+        cand = [a for a in args if a.is_value() and _plain(a) and a not in [u.arg for u in uses]]
         flags = [u for u in uses if not u.arg.is_value()]
         if not cand or not flags:
             return None
@@ -634,7 +739,7 @@ def mutate(rng, kind, args, cons, uses):
             return None
         a, e = rng.choice(pairs)
         us = [u for u in uses if u.arg is not a and u.arg is not e]
-        mk = lambda x: Use(x, [gen_value(rng, x) for _ in range(1)] if x.is_value() else [])  # noqa
+        mk = lambda x: Use(x, [gen_value(rng, x) for _ in range(1)] if (x.is_value() and x.kind != 'lc') else [])  # noqa
         return spell_(us + [mk(a), mk(e)])
     if kind == 'required-missing':
         cand = [i for i, u in enumerate(uses) if any(r in [x.arg for x in uses] for r in u.arg.req)]
@@ -646,6 +751,20 @@ def mutate(rng, kind, args, cons, uses):
             return None
         # the requirement chain may pull in others; removing r is enough to break the rule of uses[i]
         return spell_([u for u in uses if u.arg is not r])
+    if kind == 'level-mix':
+        cand = [u for u in uses if u.arg.kind == 'lc' and not u.arg.mix and (u.arg.short or u.arg.long)]
+        if not cand:
+            return None
+        u = rng.choice(cand)
+        a = u.arg
+        if a.card or any(a in grp for (t, grp) in cons if t in ('any_of', 'one_of')):
+            return None
+        # an increment and a set value for the same counter without "allow mix"
+        extra = Use(a, ['2']) if not u.values else Use(a)
+        if run_checks_py(a, '2') is False:
+            return None
+        k = max(i for i, x in enumerate(uses) if x.arg is a)
+        return spell_(uses[:k + 1] + [extra] + uses[k + 1:])
     if kind == 'break-value-constraint':
         vc = [c for c in cons if c[0] in ('differ', 'disjoint')]
         if not vc:
@@ -691,7 +810,7 @@ def mutate(rng, kind, args, cons, uses):
         if not hc:
             return None
         t, grp = rng.choice(hc)
-        mk = lambda x: Use(x, [gen_value(rng, x)] if x.is_value() else [])  # noqa
+        mk = lambda x: Use(x, [gen_value(rng, x)] if (x.is_value() and x.kind != 'lc') else [])  # noqa
         present = [u.arg for u in uses]
         if t == 'all_of':
             inl = [a for a in grp if a in present and not a.mand]
@@ -749,7 +868,7 @@ def mutate(rng, kind, args, cons, uses):
         return None
     if kind == 'value-for-flag':
         fl = [u for u in uses if not u.arg.is_value() and u.arg.long]
-        if not fl or any(a.keyspec() == '-' for a in args):
+        if not fl or any(a.positional for a in args) or any(a.kind == 'lc' for a in args):
             return None
         # a free value with no multi-value argument before it and no positional argument
         if any(a.multi for a in args):
